@@ -1258,8 +1258,6 @@ package rockredis
 //@ property C11
 //@ func (db *RockDB) HGetAll(key []byte) (int64, []common.KVRecordRet, error)
 //@   trusted read path not under contract: arbitrary result; writes nothing a caller in package node can observe
-//@ func (db *RockDB) HGet(key []byte, field []byte) ([]byte, error)
-//@   trusted read path not under contract: arbitrary result; writes nothing a caller in package node can observe
 //@ func (db *RockDB) HMget(key []byte, args ...[]byte) ([][]byte, error)
 //@   trusted read path not under contract: arbitrary result; writes nothing a caller in package node can observe
 //@ func (db *RockDB) HsetIndexSearch(table []byte, field []byte, cond *IndexCondition, countOnly bool) (IndexPropertyDType, int64, []HIndexResp, error)
@@ -1303,3 +1301,29 @@ package rockredis
 //@   ensures cf.DelCleanCnt != old(cf.DelCleanCnt) ==> ghost(misses, cf.rdb) == old(ghost(misses, cf.rdb)) + 1
 //@   ensures cf.VersionCleanCnt != old(cf.VersionCleanCnt) ==> ghost(hits, cf.rdb) == old(ghost(hits, cf.rdb)) + 1
 //@   modifies cf.cachedTimeSec, cf.checkedCnt, cf.ExpiredCleanCnt, cf.DelCleanCnt, cf.VersionCleanCnt, ghost(lastexp, cf), ghost(misses, cf.rdb), ghost(hits, cf.rdb), ghost(readerrs, cf.rdb)
+
+
+// ---- hash field reads (C08): what HGET / HMGET hand out is the stored value WITHOUT its 8-byte write time stamp, for
+// every stored length (an empty user value is stored as exactly the 8 stamp bytes and reads back as empty) ----
+//@ property C08 C11
+//@ func (db *RockDB) hGetRawFieldValue(ts int64, key []byte, field []byte, checkExpired bool, useLock bool) ([]byte, error)
+//@   trusted store read of one field: the raw stored value (user value followed by the 8-byte write time stamp); ghost(rawlen, db) is its length
+//@   ensures result0 != nil ==> ghost(rawlen, db) == len(result0)
+//@   ensures result1 != nil ==> result0 == nil
+//@   modifies ghost(rawlen, db)
+//@ func (db *RockDB) hgetWithFlag(key []byte, field []byte, getExpired bool) ([]byte, error)
+//@   requires db != nil
+//@   ensures result1 == nil && result0 != nil && ghost(rawlen, db) >= 8 ==> len(result0) == ghost(rawlen, db) - 8
+//@   ensures result1 == nil && result0 != nil && ghost(rawlen, db) < 8 ==> len(result0) == ghost(rawlen, db)
+//@   ensures result1 != nil ==> result0 == nil
+//@   modifies ghost(rawlen, db)
+//@ func (db *RockDB) HGet(key []byte, field []byte) ([]byte, error)
+//@   requires db != nil
+//@   ensures result1 == nil && result0 != nil && ghost(rawlen, db) >= 8 ==> len(result0) == ghost(rawlen, db) - 8
+//@   ensures result1 != nil ==> result0 == nil
+//@   modifies ghost(rawlen, db)
+//@ func (db *RockDB) HGetExpired(key []byte, field []byte) ([]byte, error)
+//@   requires db != nil
+//@   ensures result1 == nil && result0 != nil && ghost(rawlen, db) >= 8 ==> len(result0) == ghost(rawlen, db) - 8
+//@   ensures result1 != nil ==> result0 == nil
+//@   modifies ghost(rawlen, db)
